@@ -279,7 +279,25 @@ def _worker(args):
     t0 = time.time()
     try:
         mod = importlib.import_module(modname)
-        res = mod.run_shard(spec)
+        if spec.get("loglevel") == "DEBUG":
+            # the library runs with debug logging switched on (LOGLEVEL=DEBUG is its documented switch): what it
+            # computes must not depend on whether its log lines are evaluated; the lines themselves go nowhere
+            import logging
+
+            root = logging.getLogger()
+            saved = (root.level, list(root.handlers), logging.root.manager.disable)
+            root.handlers = [logging.NullHandler()]
+            root.setLevel(logging.DEBUG)
+            logging.disable(logging.NOTSET)
+            try:
+                res = mod.run_shard(spec)
+            finally:
+                root.setLevel(saved[0])
+                root.handlers = saved[1]
+                logging.disable(saved[2])
+            res.extra["shards_with_debug_logging"] = res.extra.get("shards_with_debug_logging", 0) + 1
+        else:
+            res = mod.run_shard(spec)
         return ("ok", spec, res, time.time() - t0)
     except HarnessError as exc:
         return ("harness", spec, f"{exc}\n{traceback.format_exc()}", time.time() - t0)
@@ -392,6 +410,11 @@ def main(argv=None) -> int:
         print(f"HARNESS-ERROR property={prop} plan failed: {type(exc).__name__}: {exc}")
         traceback.print_exc()
         return 2
+    # a configuration every property quantifies over implicitly: the library's log level. Every fourth shard of every
+    # check runs with debug logging switched on (output discarded); answers must not depend on it
+    for i, sp in enumerate(specs):
+        if i % 4 == 3 and "loglevel" not in sp:
+            sp["loglevel"] = "DEBUG"
 
     agg = ShardResult()
     harness_errors = []
